@@ -42,7 +42,8 @@ ASSUMPTIONS = ["every psutil call is atomic with respect to kernel events; in th
                "(attrs=[] runs with psutil._as_dict_attrnames narrowed to these minus ppid); the only attribute the fake kernel can "
                "make unimplemented is num_ctx_switches (the theorems quantify over every subset); ad_value is passed but dict values "
                "are not compared"]
-EXHAUSTIVE = {"quick": "attrs block: 8 argument shapes x 4 attrs contents x 2 kernels (64 histories, cold+warm+None+again); commit window: thread 0 pre-empted after each of its first 0..34 lines (a warm iteration over 3 PIDs has 28: "
+EXHAUSTIVE = {"quick": "fork: a thread parked at 6 points of process_iter()'s start-up section, in psutil.pids, _pslinux.pids, "
+                        "_pslinux.pid_exists, _psposix.pid_exists; attrs block: 8 argument shapes x 4 attrs contents x 2 kernels (64 histories, cold+warm+None+again); commit window: thread 0 pre-empted after each of its first 0..34 lines (a warm iteration over 3 PIDs has 28: "
                         "prologue, loop, finally) with thread 1 running to completion, and for the last 13 points thread 1 running "
                         "1..6 lines; status faults {ENOENT,ESRCH,EACCES,EPERM,EIO,EIO-read,no Tgid} x {PID,zombie,2 thread ids,absent,0,-1,2^31-1,2^31,"
                         "10^30}; two-thread schedules 0^i 1^j for i,j < 13; pid_exists over {-1,0..9,2^15,2^22,2^31-1,2^31,2^31+1,2^32,2^63-1,2^63,2^64,10^30} x {listed,thread id,absent}",
@@ -115,6 +116,17 @@ def valid_codes(case):
     if case.get("patch_names"):
         return [code(n) for n in NAMES if n != "ppid"]
     return [code(n) for n in NAMES]
+
+
+def gen_tables(impl_dir, out_dir):
+    from props import _c04_tables
+    return _c04_tables.gen_tables(impl_dir, out_dir)
+
+
+# where a thread is parked when the main thread forks: (function traced, file, what the parked thread is doing, lines granted)
+FORK_SPOTS = [("process_iter", "psutil/__init__.py", "iter", i) for i in (1, 3, 5, 6, 8, 11)] + \
+             [("pids", "psutil/__init__.py", "pids", 1), ("pids", "psutil/_pslinux.py", "pids", 1),
+              ("pid_exists", "psutil/_pslinux.py", "exists", 2), ("pid_exists", "psutil/_psposix.py", "exists", 1)]
 
 
 # ------------------------------------------------------------------ generation
@@ -369,6 +381,19 @@ def gen_cases(rng, tier):
             cases.append({"kind": "status_named", "cls": "status-named", "pid": ident, "kill": "ok" if k % 3 else "eperm",
                           "comm": hostile_comm(ident, k).hex(), "pre": ["Umask:\t0022", "State:\tS (sleeping)"], "tgid": str(tg),
                           "post": "Ngid:\t0\nPid:\t%d\nPPid:\t1\n" % ident, "names": ["1", str(tg), "self"]})
+    # os.fork() from the main thread while another thread is parked inside process_iter()'s start-up section / pids() /
+    # pid_exists(): in the child the three functions must work (a hang = violation) and give one coherent list
+    if tier != "search":
+        for n, (fn, fl, what, i) in enumerate(FORK_SPOTS):
+            cases.append({"kind": "fork", "cls": "fork", "func": fn, "file": fl, "what": what, "lines": i, "warm": n % 2 == 0})
+        # the parked thread holds the per-instance lock of a cached Process (inside as_dict -> oneshot): a genuine defect of
+        # the tree (notes/findings/C04.json); generated once the coordinator has recorded it as known (then the child's
+        # process_iter(attrs=...) is expected to hang) or fixed (then it must work)
+        fstat = _finding_status(FINDING_FORK)
+        if fstat in ("known", "fixed"):
+            for i in (10, 12):
+                cases.append({"kind": "fork", "cls": "fork-instance-lock", "func": "as_dict", "file": "psutil/__init__.py",
+                              "what": "iter_attrs", "lines": i, "warm": True, "defect_model": fstat == "known"})
     # the running kernel: Name: escaping of a child process and of one of its threads, and psutil on the real /proc
     if tier != "search":
         for comm in (b"x\rTgid:\t1", b"\rTgid:\t1", b"a\nb\\c\td:e", b"\x0b\x0c\x1c\x1d\x1e\xc2\x85", b"\xe2\x80\xa8Tgid:\t1",
@@ -493,7 +518,7 @@ def coq_term(case):
     _set_case(case)
     if k == "hist":
         return "run_hist %s %s" % (G.lst([G.z(c) for c in valid_codes(case)]), G.lst([_ev_term(e) for e in case["events"]]))
-    if k in ("sched", "sched_commit"):
+    if k in ("sched", "sched_commit", "fork"):
         return "JL []"
     if k == "listing":
         return "run_listing %s" % G.lst(["(%s %s)" % ("DPid" if _is_pid_name(n) else "DOther", G.by(n)) for n in case["names"]])
@@ -544,6 +569,15 @@ def coq_struct(case, raw):
                 "stale_skip": bool(flag_b), "stale_reyield": bool(flag_c), "oom": oom}
     if k in ("sched", "sched_commit"):
         return {"model": None, "spec": None}
+    if k == "fork":
+        # the table is {1,2,3}: the parked thread's call, then in the child pids(), pid_exists(2), pid_exists(99), two iterations
+        mine = {"iter": [1, 2, 3], "pids": [1, 2, 3], "exists": True, "iter_attrs": [1, 2, 3]}[case["what"]]
+        want = [["ok", mine], {"pids": [1, 2, 3], "exists2": True, "exists99": False, "iter": [1, 2, 3], "iter2": [1, 2, 3],
+                               "iter_attrs": [1, 2, 3]}]
+        model = want
+        if case.get("defect_model"):      # known finding: the inherited cached instance's lock is held for ever
+            model = [want[0], dict(want[1], iter_attrs="HANG")]
+        return {"model": model, "spec": want}
     if k == "listing":
         spec = raw[2]
         if spec is not None:
@@ -561,6 +595,21 @@ def coq_struct(case, raw):
 
 # ------------------------------------------------------------------ verdicts
 FINDING = "process_iter-skips-recycled-pid"
+FINDING_FORK = "fork-child-inherits-held-process-lock"
+
+
+def _finding_status(key):
+    """status of a C04 entry in known_findings.json ('known' / 'fixed' / None when the coordinator has not merged it)"""
+    import json
+    try:
+        with open(os.path.join(os.path.dirname(os.path.dirname(os.path.abspath(__file__))), "known_findings.json")) as f:
+            for e in json.load(f).get("findings", []):
+                if e.get("property") == ID and e.get("key") == key:
+                    return e.get("status")
+    except Exception:  # noqa
+        pass
+    return None
+
 
 
 def finding_key(case, coq):
@@ -569,6 +618,8 @@ def finding_key(case, coq):
     is_running() before the iteration, or found reused by ppid() inside as_dict) and was dropped instead of replaced."""
     if case["kind"] == "hist" and isinstance(coq, dict) and coq.get("stale_skip"):
         return FINDING
+    if case["kind"] == "fork" and case.get("func") == "as_dict" and case.get("defect_model"):
+        return FINDING_FORK
     return None
 
 
@@ -729,17 +780,34 @@ def judge(case, coq, impl):
         # two threads inside process_iter() at once, PID 2 marked as reused: no exception may escape, each thread gets an
         # ascending list of listed PIDs containing the unaffected PIDs 1 and 3 (PID 2 may be missing: known finding)
         for tid, r in enumerate(impl):
+            if r[0] == "hang":
+                return Verdict("violation", "thread %d: process_iter() did not terminate (blocked for ever)" % tid)
             if r[0] != "ok":
                 return Verdict("violation", "thread %d: process_iter() raised %s" % (tid, r[1:]))
             l = r[1]
             if l != sorted(set(l)) or not set(l) <= {1, 2, 3} or not {1, 3} <= set(l):
                 return Verdict("violation", "thread %d: process_iter() yielded %r for the table {1,2,3}" % (tid, l))
         return Verdict("ok")
+    if case["kind"] == "fork":
+        want = coq["spec"]
+        if impl[0][0] == "hang":
+            return Verdict("violation", "the parked thread never finished %s() in the parent" % case["func"])
+        if not isinstance(impl[1], dict):
+            return Verdict("violation", "the forked child did not report (%r)" % (impl[1],))
+        for key in ("pids", "exists2", "exists99", "iter", "iter2", "iter_attrs"):
+            if impl[1].get(key) != want[1][key]:
+                return Verdict("violation", "in the child forked while a thread was inside %s() (%s, line %d): %s -> %r, demanded %r"
+                               % (case["func"], case["file"], case["lines"], key, impl[1].get(key), want[1][key]))
+        if impl[0] != want[0]:
+            return Verdict("violation", "the parked thread's own call answered %r" % (impl[0],))
+        return Verdict("ok")
     if case["kind"] == "sched_commit":
         # identity across threads (C04_same_object_next_iteration at line granularity): PIDs 1,2,3 were cached by a completed
         # iteration, stay listed with the same start ticks, nobody calls cache_clear() or is_running(): whatever the
         # interleaving of one thread finishing an iteration and another entering one, both are served the very same objects
         for tid, r in enumerate(impl[:2]):
+            if r[0] == "hang":
+                return Verdict("violation", "thread %d: process_iter() did not terminate (blocked for ever)" % tid)
             if r[0] != "ok":
                 return Verdict("violation", "thread %d: process_iter() raised %s" % (tid, r[1:]))
             if [x[0] for x in r[1]] != [1, 2, 3]:
@@ -1096,6 +1164,92 @@ def _run_live_name(case, coq, env, psutil):
         child.wait()
 
 
+def _run_fork(case, env, psutil):
+    """park one thread inside [func] after [lines] lines, os.fork() from this (the main) thread, run the three functions in the
+    child under an alarm and report through a pipe; then let the parked thread finish in the parent"""
+    import json as _json
+    import select
+    import signal
+    from pv import fakeproc
+    from props._c04_sched import run_two
+    root = os.path.join(env["work"], "proc")
+    fp = fakeproc.FakeProc(root)
+    fakeproc.attach(psutil, root)
+    _reset(psutil)
+
+    class _Hang(Exception):
+        pass
+
+    def in_child(wfd):
+        def on_alarm(signum, frame):
+            raise _Hang()
+        res = {}
+        try:
+            signal.signal(signal.SIGALRM, on_alarm)
+            for key, call in (("pids", lambda: list(psutil.pids())), ("exists2", lambda: psutil.pid_exists(2)),
+                              ("exists99", lambda: psutil.pid_exists(99)),
+                              ("iter", lambda: [p.pid for p in psutil.process_iter()]),
+                              ("iter2", lambda: [p.pid for p in psutil.process_iter()]),
+                              ("iter_attrs", lambda: [p.pid for p in psutil.process_iter(attrs=["pid", "name"])])):
+                signal.alarm(3)
+                try:
+                    res[key] = call()
+                except _Hang:
+                    res[key] = "HANG"
+                except BaseException as e:  # noqa
+                    res[key] = "EXC " + type(e).__name__
+                finally:
+                    signal.alarm(0)
+            os.write(wfd, _json.dumps(res).encode())
+        finally:
+            os._exit(0)
+
+    def do_fork():
+        rfd, wfd = os.pipe()
+        pid = os.fork()
+        if pid == 0:
+            os.close(rfd)
+            in_child(wfd)
+        os.close(wfd)
+        data = b""
+        try:
+            while True:
+                ready, _, _ = select.select([rfd], [], [], 25)
+                if not ready:
+                    break
+                chunk = os.read(rfd, 65536)
+                if not chunk:
+                    break
+                data += chunk
+        finally:
+            os.close(rfd)
+        try:
+            killer[0](pid, signal.SIGKILL)      # reported or not, the child is done
+        except Exception:  # noqa
+            pass
+        try:
+            os.waitpid(pid, 0)
+        except ChildProcessError:
+            pass
+        return _json.loads(data.decode()) if data else "NO-REPORT"
+
+    killer = [os.kill]
+    calls = {"iter": lambda tid: [p.pid for p in psutil.process_iter()], "pids": lambda tid: list(psutil.pids()),
+             "iter_attrs": lambda tid: [p.pid for p in psutil.process_iter(attrs=["pid", "name"])],
+             "exists": lambda tid: psutil.pid_exists(2)}
+    try:
+        with _Patches(root, hidden=set()):
+            for p in (1, 2, 3):
+                fp.add(p, starttime=100)
+            if case.get("warm"):
+                list(psutil.process_iter())
+            results, child = run_two(calls[case["what"]], [0] * case["lines"], filename_suffix=case["file"],
+                                     funcname=case["func"], nthreads=1, hook=do_fork)
+        return [list(results[0]), child]
+    finally:
+        _reset(psutil)
+
+
 def _run_sched(case, env, psutil):
     from pv import fakeproc
     from props._c04_sched import run_two
@@ -1144,6 +1298,8 @@ def _run_sched_commit(case, env, psutil):
 
 def impl_run(case, coq, env):
     import psutil
+    if case["kind"] == "fork":
+        return _run_fork(case, env, psutil)
     if case["kind"] == "live_name":
         return _run_live_name(case, coq, env, psutil)
     if case["kind"] == "sched_commit":
